@@ -95,7 +95,7 @@ func main() {
 		go func(i int) {
 			defer wg.Done()
 			cmd := exec.Command(self, "--property", *prop, "--tier", *tier, "--worker", fmt.Sprintf("%d/%d", i, N))
-			cmd.Env = append(os.Environ(), "GOMAXPROCS=2")
+			cmd.Env = append(os.Environ(), "GOMAXPROCS=1")
 			out, err := cmd.CombinedOutput()
 			r := newResult()
 			ok := false
